@@ -2,6 +2,7 @@ package main
 
 import (
 	"bytes"
+	"crypto/rand"
 	"encoding/json"
 	"fmt"
 	"io"
@@ -9,7 +10,10 @@ import (
 	"os/exec"
 	"path/filepath"
 	"regexp"
+	"runtime"
 	"strings"
+	"sync"
+	"sync/atomic"
 	"syscall"
 
 	spg "go.1password.io/spg"
@@ -195,11 +199,85 @@ func btoi(b bool) int {
 	return 0
 }
 
+// seqReader hands out the words 1, 2, 3, ... (4 bytes per read), safe for concurrent use.
+type seqReader struct{ n uint32 }
+
+func (s *seqReader) Read(b []byte) (int, error) {
+	if len(b) != 4 {
+		return 0, tape.ErrExtraRead
+	}
+	v := atomic.AddUint32(&s.n, 1)
+	b[0], b[1], b[2], b[3] = byte(v>>24), byte(v>>16), byte(v>>8), byte(v)
+	return 4, nil
+}
+
+// c09Conservation: many goroutines draw at once from a source that never repeats a word. With the bound
+// 2^31 a draw returns its own raw word, so every result must be distinct and the results must be exactly
+// the words handed out (conservation: no draw built from bytes another draw read).
+func c09Conservation(c *Ctx) {
+	src := &seqReader{}
+	save := rand.Reader
+	rand.Reader = src
+	spg.VerifOnDraw = nil
+	defer func() { rand.Reader = save }()
+	const G = 128
+	per := 12000
+	if c.Thorough() {
+		per = 120000
+	}
+	results := make([][]uint32, G)
+	var wg sync.WaitGroup
+	var panics int32
+	for g := 0; g < G; g++ {
+		wg.Add(1)
+		go func(g int) {
+			defer wg.Done()
+			defer func() {
+				if r := recover(); r != nil {
+					atomic.AddInt32(&panics, 1)
+				}
+			}()
+			out := make([]uint32, 0, per)
+			for i := 0; i < per; i++ {
+				out = append(out, spg.VerifRandomUint32n(1<<31))
+				if i%64 == 0 {
+					runtime.Gosched()
+				}
+			}
+			results[g] = out
+		}(g)
+	}
+	wg.Wait()
+	total := 0
+	seen := make(map[uint32]bool, G*per)
+	for g, out := range results {
+		total += len(out)
+		prev := uint32(0)
+		for _, v := range out {
+			if seen[v] || v == 0 || v > atomic.LoadUint32(&src.n) || v <= prev {
+				c.Violate("draws-share-source-bytes-under-concurrency", fmt.Sprintf("goroutine %d: draw result %d is a repeat, out of order or not a word the source handed out (each raw word 1,2,3,... must decide exactly one draw)", g, v), nil)
+				return
+			}
+			seen[v] = true
+			prev = v
+		}
+	}
+	c.Exec(total)
+	c.Count("concurrent_conservation_draws", int64(total))
+	if panics > 0 || total != int(atomic.LoadUint32(&src.n)) {
+		c.Violate("draws-share-source-bytes-under-concurrency", fmt.Sprintf("%d draws used %d source words (%d goroutines panicked)", total, src.n, panics), nil)
+	}
+}
+
 func c09Case(c *Ctx) {
 	batches, per, _ := c09Counts(c.Tier)
 	if c.Case >= batches {
 		c09Strace(c, c.Case-batches)
 		return
+	}
+	if c.Case%50 == 7 {
+		defer runtime.GOMAXPROCS(runtime.GOMAXPROCS(16))
+		c09Conservation(c)
 	}
 	var gens []*c09Gen
 	var base []string
@@ -318,6 +396,19 @@ func c09Case(c *Ctx) {
 					}
 					if bad {
 						break
+					}
+					// the caller recovered from the failure and carries on: the next generation from the same
+					// bytes must be what it was before the failure (nothing left behind by the aborted call)
+					if !sticky && (k+j)%2 == 0 {
+						tc := g.tape()
+						oc := g.run(tc)
+						c.Exec(1)
+						c.Count("clean_generations_after_a_fault", 1)
+						if kc := g.choices(oc); kc != key0 || tc.Reads != t0.Reads {
+							c.Violate("aborted-generation-affects-the-next", fmt.Sprintf("%s: after a generation aborted by a source failure at read %d, the same recipe and source bytes give %s (%d reads) instead of %s (%d reads)", g.desc(), k, kc, tc.Reads, key0, t0.Reads), fdet)
+							bad = true
+							break
+						}
 					}
 				}
 			}
